@@ -405,22 +405,41 @@ class Lattice(Unit):
                 if len(ra) != len(rb):
                     rec.violation("outline:point-count:" + fkind, "%s glyph %r: %d points+phantoms in the original, %d in the instance" % (where, gn, len(ra), len(rb)))
                     continue
-                dev = E._max_point_diff(ra, rb)
-                if dev > own + 1e-6:
-                    i = max(range(len(ra)), key=lambda j: max(abs(ra[j][0] - rb[j][0]), abs(ra[j][1] - rb[j][1])))
-                    rec.violation("outline:gvar-points:" + fkind, "%s glyph %r: point %d is %s in the original and %s in the instance (fontTools floats): off by %.3f, budget %.3f" % (where, gn, i, ra[i], rb[i], dev, own),
+                # real points / component offsets, then the phantom points: left.x, right.x
+                # (= left + rounded advance: one more rounding), and with vmtx top.y, bottom.y;
+                # without vmtx the vertical phantoms are not stored anywhere (not observable)
+                has_v = "vmtx" in O.font
+                worst, wi = 0.0, None
+                for j, (p, q) in enumerate(zip(ra, rb)):
+                    k = j - (len(ra) - 4)
+                    if k < 0:
+                        e = max(abs(p[0] - q[0]), abs(p[1] - q[1]))
+                    elif k == 0:
+                        e = abs(p[0] - q[0])
+                    elif k == 1:
+                        e = abs(p[0] - q[0]) - 0.5
+                    elif has_v:
+                        e = abs(p[1] - q[1]) - (0.5 if k == 3 else 0.0)
+                    else:
+                        e = 0.0
+                    if e > worst:
+                        worst, wi = e, j
+                if worst > own + 1e-6:
+                    i = wi
+                    rec.violation("outline:gvar-points:" + fkind, "%s glyph %r: point %d of %d (the last 4 are phantoms) is %s in the original and %s in the instance (fontTools floats): off by %.3f, budget %.3f" % (where, gn, i, len(ra), ra[i], rb[i], worst, own),
                                   observed=rb[i], expected=ra[i])
                 toly = self.draw_budget(O, I, gn, ctx, nlI, optimize, rO, rI) + 1e-6
                 tolx = toly + E.int_tol(own)
                 if O.components(gn):
                     rec.witness("composite glyph")
-                msg = E.outline_close(a["ft"], b["ft"], tolx, toly)
-                if msg:
-                    rec.violation("outline:glyphset:" + fkind, "%s glyph %r (fontTools glyphSet): %s" % (where, gn, msg))
-                if "hb" in a and "hb" in b:
-                    msg = E.outline_close(a["hb"], b["hb"], tolx, toly)
-                    if msg:
-                        rec.violation("outline:harfbuzz:" + fkind, "%s glyph %r (HarfBuzz): %s" % (where, gn, msg))
+                for obs_name, k, cls in (("fontTools glyphSet", "ftraw", "glyphset"), ("HarfBuzz", "hbraw", "harfbuzz")):
+                    if k not in a or k not in b:
+                        continue
+                    d = E.stream_abs_diff(a[k], b[k], tolx)
+                    if d is None:
+                        rec.violation("outline:%s-structure:%s" % (cls, fkind), "%s glyph %r (%s): the drawn point structure differs: %s vs %s points" % (where, gn, obs_name, [len(c) for c in a[k]], [len(c) for c in b[k]]))
+                    elif d[0] > tolx or d[1] > toly:
+                        rec.violation("outline:%s:%s" % (cls, fkind), "%s glyph %r (%s): drawn coordinates differ by dx=%.3f dy=%.3f (budget %.3f / %.3f)" % (where, gn, obs_name, d[0], d[1], tolx, toly))
             elif O.is_cff2:
                 if bop is None:
                     bop = 0.5 + (0.5 * O.cff2_info.max_weight(ctx, all_regions=True) if O.cff2_info else 0.0)
@@ -430,13 +449,13 @@ class Lattice(Unit):
                         continue
                     d = E.cff_stream_diff(a[k], b[k])
                     if d is None:
-                        # a move that rounds to zero may be dropped: compare the geometry
-                        n = len(E.point_stream(a[k])) + 1
-                        ck = "ft" if k == "ftraw" else "hb"
-                        msg = E.outline_close(a[ck], b[ck], bg * n, bg * n)
-                        rec.count("CFF2 point structure changed: canonical geometry compared")
-                        if msg:
-                            rec.violation("outline:cff2-structure:" + fkind, "%s glyph %r (%s): %s" % (where, gn, obs_name, msg))
+                        # the rounded moves of a contour need not sum to zero any more: its
+                        # last point may miss the start by the accumulated budget
+                        n = sum(len(c) for c in a[k]) + 1
+                        d = E.cff_stream_diff(a[k], b[k], eps=bg * n)
+                        rec.count("CFF2 contour closes differently after rounding: closing points matched with the accumulated budget")
+                    if d is None:
+                        rec.violation("outline:cff2-structure:" + fkind, "%s glyph %r (%s): the drawn point structure differs: %s vs %s points" % (where, gn, obs_name, [len(c) for c in a[k]], [len(c) for c in b[k]]))
                         continue
                     rel, acc = d
                     if rel > bg:
@@ -472,6 +491,9 @@ class Lattice(Unit):
                 rec.violation("metrics:mvar:" + fkind, "%s: %s is %.3f in the original, %.3f in the instance (budget %.3f)" % (where, tag, v, w, bm), observed=w, expected=v)
             if tag in ("hasc", "hdsc", "hlgp") and not O.typo_synced:
                 continue
+            if tag in oo["mvar_tags"] and not O.mvar_sorted:
+                rec.count("MVAR value records of the original not sorted by tag (HarfBuzz cannot look them up): HarfBuzz metric not compared")
+                continue
             hv, hw = oo["hbmetrics"].get(tag), io_["hbmetrics"].get(tag)
             if hv is not None and hw is not None and abs(hv - hw) > E.int_tol(bm):
                 rec.violation("metrics:harfbuzz:" + fkind, "%s: HarfBuzz metric %s is %s in the original, %s in the instance (budget %.3f)" % (where, tag, hv, hw, bm), observed=hw, expected=hv)
@@ -492,7 +514,10 @@ class Lattice(Unit):
                     if near:
                         rec.count("location on a FeatureVariations condition boundary: substitution not compared")
                         continue
-                    rec.violation("shaping:glyphs:" + fkind, "%s text %r: original shapes to %s, instance to %s" % (where, text, [x[0] for x in ra], [x[0] for x in (rb or [])]),
+                    cls = "shaping:glyphs:" + fkind
+                    if E.fv_pinned_shape(O.font, ctx.status, ctx.n_d):
+                        cls = "shaping:glyphs:feature-variation-record-on-pinned-axes-holds-while-other-records-remain"
+                    rec.violation(cls, "%s text %r: original shapes to %s, instance to %s" % (where, text, [x[0] for x in ra], [x[0] for x in (rb or [])]),
                                   observed=[x[0] for x in (rb or [])], expected=[x[0] for x in ra])
                     continue
                 if base is not None and [x[0] for x in base[text]] != [x[0] for x in ra]:
